@@ -213,6 +213,19 @@ class Case:
             return t[1]
         if t in self.bools:
             return self.bools[t]
+        if t[0] == "byteclass" and t[1] in CELLS:
+            v = self.variants.get(("cell", t[1]))
+            if not isinstance(v, int):
+                return None
+            cell = CELLS[t[1]][v]
+            members = set()
+            for lo, hi in t[2]:
+                members |= set(range(lo, hi + 1))
+            if cell <= members:
+                return True
+            if not (cell & members):
+                return False
+            return None
         if t[0] == "un" and t[1] == "Not":
             v = self.truth(t[2])
             return None if v is None else (not v)
@@ -238,6 +251,59 @@ class Case:
         for t, v in self.bools.items():
             parts.append("%s=%s" % (show(t), v))
         return "; ".join(parts)
+
+
+# byte-valued holes whose tests were rewritten into cells (see cellify): hole term -> list of frozensets partitioning 0..255
+CELLS = {}
+
+
+def cellify(paths, rows):
+    """Every test `byte in S` on the same byte (any number of different sets S, on paths, in returned bool terms and in the rows)
+    is rewritten over the partition of 0..255 those sets generate: the byte becomes a variant point ("cell", hole) whose domain
+    is the list of cells, and `holds/nholds(byteclass(hole, S))` the set of cells it admits.  Exact (all 256 values are kept
+    apart as far as any test can tell them apart).  Returns the variant domain to pass to compare()."""
+    def sets_in(t, acc):
+        if isinstance(t, tuple) and t:
+            if t[0] == "byteclass":
+                acc.setdefault(t[1], set()).add(t[2])
+            for x in t[1:]:
+                if isinstance(x, tuple):
+                    sets_in(x, acc)
+    acc = {}
+    for p in paths:
+        for c in p.conds:
+            sets_in(c, acc)
+        if isinstance(p.value, tuple):
+            sets_in(p.value, acc)
+    for r in rows:
+        for g in r.guards:
+            sets_in(g, acc)
+    dom = {}
+    for hole, sets in acc.items():
+        sig = {}
+        for v in range(256):
+            key = tuple(any(lo <= v <= hi for lo, hi in S) for S in sorted(sets))
+            sig.setdefault(key, set()).add(v)
+        cells = [frozenset(x) for _, x in sorted(sig.items())]
+        CELLS[hole] = cells
+        dom[("cell", hole)] = list(range(len(cells)))
+
+    def rw(a):
+        if a[0] in ("holds", "nholds") and a[1][0] == "byteclass" and a[1][1] in CELLS:
+            cells = CELLS[a[1][1]]
+            members = set()
+            for lo, hi in a[1][2]:
+                members |= set(range(lo, hi + 1))
+            inside = [i for i, c in enumerate(cells) if c <= members]
+            outside = [i for i, c in enumerate(cells) if not (c & members)]
+            excl = outside if a[0] == "holds" else inside
+            return ("notin_variants", ("cell", a[1][1]), tuple(excl))
+        return a
+    for p in paths:
+        p.conds = tuple(rw(c) for c in p.conds)
+    for r in rows:
+        r.guards = [rw(g) for g in r.guards]
+    return dom
 
 
 def collect(atoms):
